@@ -1,5 +1,6 @@
 import Proofs.Lemmas.Vec
 import VerifModel.Gen.Det
+import VerifModel.Model.DetMetrics
 import VerifModel.Spec.Det
 /-
   GenEq (C05): each machine-translated `_compute_from_obs_fcst` equals the textbook
@@ -11,6 +12,9 @@ open VerifModel XR Spec.Det
 set_option linter.unusedSimpArgs false
 set_option linter.unusedVariables false
 set_option linter.unusedSectionVars false
+set_option linter.unusedTactic false
+set_option linter.unreachableTactic false
+set_option linter.unnecessarySeqFocus false
 
 theorem rabs_eq (x : Rat) : rabs x = |x| := by
   unfold rabs
@@ -195,4 +199,45 @@ theorem rmsf_eq (hpos : ∀ p ∈ List.zip fs os, 0 < p.1 / p.2 ∧ p.2 ≠ 0) :
       rw [ih', fin_div_ne _ _ h0.2]
 
 end
+
+/-! ### corr and kge: `np.corrcoef(obs, fcst)[1, 0]` is the translator primitive `corrCore`
+(Model/Corrcoef.lean); the guards and the arithmetic around it are machine-translated.  Generated =
+hand-written model of Model/DetMetrics.lean for ALL vectors (no finiteness or length hypothesis); that
+the model is Pearson's r / Gupta's KGE is `C05_corr_def`, `C05_kge_def` (Proofs/C05Rank.lean). -/
+
+theorem len_le_one (v : Vec) : XR.le (Vec.len v) (fin 1) = decide (v.length ≤ 1) := by
+  simp only [Vec.len, XR.ofNat, XR.le]
+  congr 1
+  exact propext ⟨fun h => by exact_mod_cast h, fun h => by exact_mod_cast h⟩
+theorem len_lt_two (v : Vec) : XR.lt (Vec.len v) (fin 2) = decide (v.length ≤ 1) := by
+  simp only [Vec.len, XR.ofNat, XR.lt]
+  congr 1
+  apply propext
+  constructor
+  · intro h
+    have h2 : v.length < 2 := by exact_mod_cast h
+    omega
+  · intro h
+    have h2 : v.length < 2 := by omega
+    exact_mod_cast h2
+
+/-- spellings of the guards / of the clipping-free arithmetic a harmless rewrite may use -/
+macro "lib_tac" : tactic => `(tactic| (
+  simp only [len_le_one, len_lt_two, XR.gt, XR.ge, Bool.false_eq_true, if_false, if_true, Bool.or_false,
+    Bool.false_or, decide_eq_true_eq, Bool.or_eq_true, Bool.not_eq_true', ite_not]
+  try (split_ifs <;> simp_all)))
+
+theorem corr_eq (T : Tr) (agg : Vec → XR) (obs fcst : Vec) :
+    Gen.Det.m_corr T agg obs fcst = corr T obs fcst := by
+  simp only [Gen.Det.m_corr, corr] <;> lib_tac
+
+theorem kge_eq (T : Tr) (agg : Vec → XR) (obs fcst : Vec) :
+    Gen.Det.m_kge T agg obs fcst = kge T obs fcst := by
+  simp only [Gen.Det.m_kge, kge] <;> lib_tac
+
+/-- the generated definitions compute: a perfectly correlated pair of series (with the identity as the
+root parameter: sums of squares 1/2 and 2, covariance 1) -/
+example : Gen.Det.m_corr ⟨fun q => q, fun _ => 0, fun _ => 0, fun q => q⟩ Vec.mean [fin 0, fin 1] [fin 1, fin 3]
+    = fin 1 := by decide +kernel
+
 end VerifModel.GenEq.Det
